@@ -395,6 +395,7 @@ class Daemon(object):
         request_serializer_id = serializers.MarshalSerializer.serializer_id
         wasBatched = False
         isCallback = False
+        inUserCode = False   # True while the Pyro object's own code (method, property) is running
         try:
             msg = protocol.recv_stub(conn, [protocol.MSG_INVOKE, protocol.MSG_PING])
         except errors.CommunicationError as x:
@@ -466,7 +467,9 @@ class Daemon(object):
                     # normal single method call
                     if method == "__getattr__":
                         # special case for direct attribute access (only exposed @properties are accessible)
+                        inUserCode = True
                         data = _get_exposed_property_value(obj, vargs[0])
+                        inUserCode = False
                         if not request_flags & protocol.FLAGS_ONEWAY:
                             isStream, data = self._streamResponse(data, conn)
                             if isStream:
@@ -479,7 +482,9 @@ class Daemon(object):
                                 return
                     elif method == "__setattr__":
                         # special case for direct attribute access (only exposed @properties are accessible)
+                        inUserCode = True
                         data = _set_exposed_property_value(obj, vargs[0], vargs[1])
+                        inUserCode = False
                     else:
                         method = _get_attribute(obj, method)
                         if request_flags & protocol.FLAGS_ONEWAY:
@@ -489,7 +494,9 @@ class Daemon(object):
                         else:
                             isCallback = getattr(method, "_pyroCallback", False)
                             try:
+                                inUserCode = True
                                 data = method(*vargs, **kwargs)  # this is the actual method call to the Pyro object
+                                inUserCode = False
                             except Exception as xv:
                                 self.methodcall_error_handler(self, current_context.client_sock_addr, method, vargs, kwargs, xv)
                                 raise
@@ -525,14 +532,17 @@ class Daemon(object):
             if msg:
                 request_seq = msg.seq
                 request_serializer_id = msg.serializer_id
-            if not isinstance(xv, errors.ConnectionClosedError):
+            # a communication error that the Pyro object's own code raised (for instance because a call it made to
+            # another server failed) is the result of this call, it says nothing about the connection being served
+            ownCommError = isinstance(xv, errors.CommunicationError) and not inUserCode
+            if not (ownCommError and isinstance(xv, errors.ConnectionClosedError)):
                 if not request_flags & protocol.FLAGS_ONEWAY:
-                    if isinstance(xv, errors.SerializeError) or not isinstance(xv, errors.CommunicationError):
+                    if isinstance(xv, errors.SerializeError) or not ownCommError:
                         # only return the error to the client if it wasn't a oneway call, and not a communication error
                         # (in these cases, it makes no sense to try to report the error back to the client...)
                         tblines = errors.format_traceback(detailed=config.DETAILED_TRACEBACK)
                         self._sendExceptionResponse(conn, request_seq, request_serializer_id, xv, tblines)
-            if isCallback or isinstance(xv, (errors.CommunicationError, errors.SecurityError)):
+            if isCallback or ownCommError or isinstance(xv, errors.SecurityError):
                 raise  # re-raise if flagged as callback, communication or security error.
 
     def _clientDisconnect(self, conn):
